@@ -205,6 +205,11 @@ func (c *Case) Prepare() (wd, meta string, err error) {
 			}
 			os.MkdirAll(p, 0777)
 		}
+		for l, target := range c.Spec.Links {
+			lp := filepath.Join(wd, l)
+			os.MkdirAll(filepath.Dir(lp), 0777)
+			os.Symlink(target, lp)
+		}
 		for p, content := range c.Spec.Sources {
 			if !filepath.IsAbs(p) {
 				p = filepath.Join(wd, p)
